@@ -280,12 +280,25 @@ def r6_table_positions_are_stream_positions(cx):
               "header.%s is the stream position taken immediately before the table is written (derives from %s)" % (name, sorted(callee_str(b.term(c)).split("::")[-1] for c in calls) + [str(x) for x in others]))
 
 
+def r8_address_slots_are_independent(cx):
+    """the address table grows with `resize(idx + 1, Default::default())`, which *clones* one default slot into every new
+    entry -- when a cluster arrives before lower-numbered ones, several slots are created at once. A slot owns its value
+    (`Cell<Option<T>>`): if it held it behind a shared pointer, the clones would alias and the first address set would
+    be the address of all of them (which clusters alias depends on the order of arrival)."""
+    F = cx.F
+    st = F.struct("bases::types::delayed::Late")
+    shared = [(fl["name"], fl["ty"]) for fl in st["fields"] if re.search(r"\b(Arc|Rc)<|&", fl["ty"])]
+    cx.ob("R8", "R8/Late/slots-own-their-value", not shared and bool(st["fields"]), "src/bases/types/delayed.rs (struct Late)",
+          "a Late<T> slot holds its value itself, not behind a shared pointer (shared fields: %s)" % shared)
+
+
 def r7_positions_on_the_buffered_stream(cx):
     import c01
     c01.r19_positions_taken_on_the_buffered_stream(cx, rule="R7")
 
 
 RULES = [
+    ("R8", r8_address_slots_are_independent, 1),
     ("R7", r7_positions_on_the_buffered_stream, 1),
     ("R6", r6_table_positions_are_stream_positions, 2),
     ("R1", r1_address_table, 7),
